@@ -1028,6 +1028,17 @@ class Engine:
       if h:
         return h[1](self, a, b)
       raise Unsupported('comparison of symbolic sequences')
+    if isinstance(a, (tuple, list)) and isinstance(b, (tuple, list)) and isinstance(op, (ast.Eq, ast.NotEq)) and (_any_sym(a) or _any_sym(b)):
+      # sequences with symbolic members: equal iff same length and all members equal
+      if len(a) != len(b):
+        r = False
+      else:
+        parts = [self.compare(ast.Eq(), x, y) for x, y in zip(a, b)]
+        parts = [to_z3(p_) if not isinstance(p_, bool) else z3.BoolVal(p_) for p_ in parts]
+        r = z3.simplify(z3.And(*parts)) if parts else True
+      if isinstance(op, ast.Eq):
+        return r
+      return z3.Not(r) if is_sym(r) else (not r)
     if not is_sym(a) and not is_sym(b):
       if isinstance(a, (SymSeq, Closure, SymCallable)) or isinstance(b, (SymSeq, Closure, SymCallable)):
         raise Unsupported('comparison of abstract objects')
